@@ -138,13 +138,15 @@ class Unit:
                 for e in self.entries:
                     h = e.head
                     if h[0] == "fn" and h[1] in ("*", alias) and fnmatch.fnmatchcase(fn.key, h[2]):
+                        if getattr(e, "canary", None) and not fn.body:
+                            continue
                         rsx.inject_fn(src, ed, fn, e)
                         meta["tags"] += re.findall(r"C\d+", e.get("tags"))
                         meta["contract"] = True
                         e.used = True
                     elif h[0] == "loop" and h[1] in ("*", alias) and fnmatch.fnmatchcase(fn.key, h[2]):
                         rsx.inject_loop(src, ed, fn, h[3], e)
-                        have_loop_entries += 1
+                        have_loop_entries += 0 if getattr(e, "canary", None) else 1
                         e.used = True
                 if len(loops) != have_loop_entries:
                     meta["drifted"] = True
